@@ -275,6 +275,8 @@ def check_fuzz(ctx, c):
         shutil.rmtree(work, ignore_errors=True)
 
 
+RULE = RULE + " " + ('Since seeded round 4 the sanitized child runs with PYTHONMALLOC=malloc, so the ctypes buffers that the engine fills (trajectory, sample times) are ASan-tracked heap blocks; histories contain the pattern output ; sample ; output (results read, a record added by hand, results read again without an iteration in between).')
+
 FACETS = [
     Facet("sanitized", check, strategy=strat, examples=(480, 20000), shards=(16, 16), setup=setup, native=True, shrink=True),
     Facet("libfuzzer", check_fuzz, enumerate=enum_fuzz, shards=(2, 2), setup=setup, native=True),
